@@ -168,13 +168,18 @@ def step (st : St) (s : Step) (obs : List (String Ã— List Val)) : St Ã— String Ã
       match obs.find? (fun o => o.1 = p.1) with
       | some o => valuesOf h1 p.2 != some o.2
       | none => false)
-    if diverged.isEmpty then
+    if !s.op.destructive && diverged.isEmpty then
       ({ heap := h1, regs := regs1, env := env1, nextReg := newReg + 1 }, s!"ok;{expected};{names mayNames};-", false)
     else
+      -- a destructive operation entangles everything it could reach: the argument lists, every
+      -- variable sharing a cell with them (before or after) and the cells allocated by the step
+      -- become one region (slip rewrites slots in place where the language relinks cells, so the
+      -- lists involved may stay aliased in ways the cons model no longer shows)
       let involved := mayNames ++ diverged.map (Â·.1)
       let groupCells := fp
         ++ (st.env.filter (fun p => involved.contains p.1)).flatMap (fun p => chainList h p.2)
         ++ (env1.filter (fun p => involved.contains p.1)).flatMap (fun p => chainList h1 p.2)
+        ++ (if s.op.destructive then List.range' h.length (h1.length - h.length) else [])
       let groupRegs := groupCells.filterMap (regOf regs1)
       let blob := newReg + 1
       let regs2 := regs1.map (fun g => if groupRegs.contains g then blob else g)
